@@ -101,7 +101,10 @@ class ScanHooks(SelfHooks):
     loop_end = 0
 
     def iter_item(self, interp, loop, k, state):
-        it = interp.ev(loop.iter, state)
+        r = self.take(interp, interp.ev(loop.iter, state), state)
+        return None if r is NotImplemented else r
+
+    def take(self, interp, it, state):
         if isinstance(it, A.Sym) and it.label == 'iterator':
             pos = state.env.get('__pos', 0)
             if pos >= len(self.tokens):
@@ -109,7 +112,7 @@ class ScanHooks(SelfHooks):
             state.env['__pos'] = pos + 1
             state.env['__mark'] = len(state.trace)
             return self.mk(pos)
-        return None
+        return NotImplemented
 
 
 def run_scan(m, fn, TeX, tokens, which):
@@ -118,7 +121,7 @@ def run_scan(m, fn, TeX, tokens, which):
     hooks = ScanHooks(m, TeX, tokens)
     hooks.should_inline = A.private_only
     hooks.keep = lambda ev: False
-    it = ScanInterp(model=m, scope=fn, hooks=hooks, max_iter=len(tokens) + 2, exc_edges=False, precise_exc=True, inline=3)
+    it = ScanInterp(model=m, scope=fn, hooks=hooks, max_iter=len(tokens) + 2, exc_edges=False, precise_exc=True, inline=3, heap=True)
     outs = it.run_function(fn, env={'which': which, 'debug': False})
     got = set()
     for kind, s, v in outs:
@@ -310,8 +313,8 @@ def r33_r34(chk, m):
             for a, b in ((1, 2), (2, 1), (2, 2), (-3, 1)):
                 h = RelHooks(m, c, b)
                 h.should_inline = A.private_only
-                it = A.Interp(model=m, scope=fn, hooks=h, max_iter=2, exc_edges=False, inline=2)
-                outs = it.run_function(fn, env={'self.attributes': {'rel': rel, 'a': a, 'b': b}})
+                it = A.Interp(model=m, scope=fn, hooks=h, max_iter=6, exc_edges=False, inline=4, heap=True, precise_exc=True)
+                outs = it.run_function(fn, env={'self': A.Obj(cname, {'attributes': {'rel': rel, 'a': a, 'b': b}}, cls=c), 'tex': A.Sym('tex', truthy=True)})
                 chk.paths += len(outs)
                 res = set()
                 for kind, s2, v in outs:
@@ -330,8 +333,8 @@ def r33_r34(chk, m):
     for n in (3, 4, -3, 0, 7):
         h = RelHooks(m, c, n)
         h.should_inline = A.private_only
-        it = A.Interp(model=m, scope=fn, hooks=h, max_iter=2, exc_edges=False, inline=2)
-        outs = it.run_function(fn, env={'self.attributes': {}})
+        it = A.Interp(model=m, scope=fn, hooks=h, max_iter=2, exc_edges=False, inline=4, heap=True, precise_exc=True)
+        outs = it.run_function(fn, env={'self': A.Obj('ifodd', {'attributes': {}}, cls=c), 'tex': A.Sym('tex', truthy=True)})
         got[n] = {(kind, tuple(bool(x) if isinstance(x, (bool, int)) else 'TOP' for x in s2.env.get('__sel', ()))) for kind, s2, v in outs}
     flat = {repr((k, sorted(v, key=repr))) for k, v in got.items()}
     chk.decide(R4, '\\ifodd', flat, {repr((k, [('return', (k % 2 == 1,))])) for k in got},
